@@ -49,6 +49,8 @@ import (
 	"github.com/Comcast/rulio/core"
 
 	"github.com/gorhill/cronexpr"
+
+	"github.com/Comcast/rulio/core/verifhook"
 )
 
 // CRON is a crude logging component, which really is just the EXTERN
@@ -383,6 +385,7 @@ func (c *Cron) run(ctx *core.Context, job *CronJob) {
 	if err != nil {
 		job.Err = err
 	}
+	verifhook.Point("cron.resched.gap")
 	if once {
 	} else {
 		// ToDo: Consider an error here.
